@@ -179,7 +179,8 @@ def gen_prior_spec(rng, data_unit, n_offsets=0, poly_trend=None, kkind=None, p_u
     s = dict(kind=jitter_kind, unit=su, value=0.0 if jitter_kind == "const0" else float(10 ** rng.uniform(-2, 1) * conv(1, "km/s", su)),
              mu=float(rng.uniform(-2, 1)), sd=float(rng.uniform(0.3, 1.5)))
     custom_lin = means or bool(rng.random() < 0.3)
-    return dict(poly_trend=poly, n_offsets=n_offsets, P_unit=p_unit, P_min=float(P_min), P_max=float(P_max), K=K, v=v,
+    sv_form = str(rng.choice(["list", "scalar", "dict"]))
+    return dict(sigma_v_form=sv_form, poly_trend=poly, n_offsets=n_offsets, P_unit=p_unit, P_min=float(P_min), P_max=float(P_max), K=K, v=v,
                 offsets=off, s=s, custom_linear=bool(custom_lin))
 
 
@@ -220,8 +221,11 @@ def build_prior(ps):
             sigma_v = None
         else:
             sigma_v = [vv["sigma"] * U(vv["unit"]) / u.day ** i for i, vv in enumerate(ps["v"])]
-            if len(sigma_v) == 1 and False:
-                sigma_v = sigma_v[0]
+            form = ps.get("sigma_v_form", "list")
+            if form == "scalar" and len(sigma_v) == 1:
+                sigma_v = sigma_v[0]                      # a bare Quantity is allowed for poly_trend=1
+            elif form == "dict":
+                sigma_v = {"v%d" % i: q for i, q in enumerate(sigma_v)}
         kw = dict(P_min=ps["P_min"] * pu, P_max=ps["P_max"] * pu, sigma_v=sigma_v, s=s_arg,
                   poly_trend=ps["poly_trend"], v0_offsets=v0_offsets or None, pars=pars or None)
         if K["kind"] == "default" and not K.get("custom"):
